@@ -36,7 +36,7 @@ fn deliver(u: &mut U, app: &Address, chain: &[u8], id: &[u8], src: &[u8], payloa
 }
 
 pub fn run(ctx: &Ctx, rep: &mut Report) {
-    let total = ctx.universes(200, 6000);
+    let total = ctx.universes(1000, 40000);
     for uni in ctx.my_universes(total) {
         let mut rng = ctx.rng_for(uni);
         rep.begin_universe(uni);
